@@ -105,13 +105,13 @@ Definition seen_eqb (a b : option (dict pystr pyval)) : bool :=
   end.
 (* a refusal issued before the handler method is reached is compared as a refusal (400 or a fault, with
    whatever reason / code: the statement allows either); a fault on behalf of the handler with its code *)
-Definition resp_eqb (reached : bool) (a b : sresp) : bool :=
+Definition resp_eqb (strict : bool) (a b : sresp) : bool :=
   match a, b with
   | ROk _, ROk _ => true
   | REsc x, REsc y => sexn_eqb x y
-  | RFault x, RFault y => if reached then (x =? y)%Z else true
+  | RFault x, RFault y => if strict then (x =? y)%Z else true
   | RBad _, RBad _ => true
-  | RBad _, RFault _ | RFault _, RBad _ => negb reached
+  | RBad _, RFault _ | RFault _, RBad _ => negb strict
   | _, _ => false
   end.
 Definition reached (s : option (dict pystr pyval)) : bool := match s with Some _ => true | None => false end.
@@ -123,29 +123,34 @@ Definition cexn_eqb (a b : C06.Model.cexn) : bool :=
   end.
 (* what the caller gets for a refusal that never reached the handler: some error carrying the status or
    the code - compared by class *)
-Definition outcome_eqb (reached : bool) (a b : C07.Model.outcome) : bool :=
+Definition outcome_eqb (strict : bool) (a b : C07.Model.outcome) : bool :=
   C07.Run.outcome_eqb a b ||
-  (negb reached &&
+  (negb strict &&
    match a, b with
    | C07.Model.Raised (C07.Model.EResponse _ | C07.Model.EActionResponse _ _ _),
      C07.Model.Raised (C07.Model.EResponse _ | C07.Model.EActionResponse _ _ _) => true
    | _, _ => false
    end).
-Definition call_eqb (a b : call_obs) : bool :=
+(* the code of a fault is compared only where the statement fixes it: a fault on behalf of a handler that
+   raised UpnpActionError (its own code) - not for a handler-raised UpnpValueError, nor for refusals *)
+Definition code_fixed (h : hscript) (seen : option (dict pystr pyval)) : bool :=
+  reached seen && match h with HValueError => false | _ => true end.
+Definition call_eqb (h : hscript) (a b : call_obs) : bool :=
   match a, b with
   | CNoAction, CNoAction | CCreateFailed, CCreateFailed => true
   | CRefused x, CRefused y => cexn_eqb x y
   | CDone s1 r1 o1, CDone s2 r2 o2 =>
-      seen_eqb s1 s2 && resp_eqb (reached s1) r1 r2 && outcome_eqb (reached s1) o1 o2
+      seen_eqb s1 s2 && resp_eqb (code_fixed h s1) r1 r2 && outcome_eqb (code_fixed h s1) o1 o2
   | _, _ => false
   end.
-Definition obs1_eqb (a b : obs1) : bool :=
+Definition obs1_eqb (x : op) (a b : obs1) : bool :=
   match a, b with
   | ObInitFailed x, ObInitFailed y => sexn_eqb x y
   | ObNoService, ObNoService => true
   | ObDescribe r1 s1, ObDescribe r2 s2 => C05.Run.obs_eqb r1 r2 && list_eqb step_eqb s1 s2
-  | ObCall x, ObCall y => call_eqb x y
-  | ObRaw s1 r1, ObRaw s2 r2 => seen_eqb s1 s2 && resp_eqb (reached s1) r1 r2
+  | ObCall c1, ObCall c2 => call_eqb (match x with OpCall _ _ _ h => h | _ => HCrash end) c1 c2
+  | ObRaw s1 r1, ObRaw s2 r2 =>
+      seen_eqb s1 s2 && resp_eqb (code_fixed (match x with OpRaw _ _ _ h => h | _ => HCrash end) s1) r1 r2
   | _, _ => false
   end.
 
@@ -175,7 +180,7 @@ Fixpoint report_ops (i : input) (base k : N) (ms : observation) (ops : list op) 
   match ops, obs, ms with
   | [], [], _ => []
   | x :: ops', ob :: obs', m :: ms' =>
-      (if obs1_eqb m ob then [] else [(base, 0, k)]) ++
+      (if obs1_eqb x m ob then [] else [(base, 0, k)]) ++
       (if op_in_domain i x
        then flat_map (fun cb : N * bool => if snd cb then [] else [(base, fst cb, k)]) (clauses i x ob)
        else []) ++
